@@ -490,6 +490,9 @@ type PropDef struct {
 	Assume    []string
 	Exhaust   func(idx int) (tape []uint32, ok bool) // optional exhaustive prefix (C20)
 	ExhaustN  int
+	// Require: probes / fault kinds that must have occurred at least once in a full-size batch
+	// (checked by the orchestrator; a condition stuck at zero is harness trouble, exit 2)
+	Require []string
 }
 
 var Registry = map[string]*PropDef{}
